@@ -1,22 +1,25 @@
-(* Promptness monitor for C01 (separate file so that Model/FdlOracle.v stays untouched):
-   the synchronisation pause is the CONSTANT 33 bit times.  Every transmission of the station is gated
-   by it and by nothing else once the station has something to send; the other stations rely on that
-   (hand-over and reply-in-slot races of the form 2P + 44 bit <= Tslot).  So, over the
-   implementation's transcript: whenever the station is in a state whose next step is gated only by
-   the synchronisation pause -
+(* Reaction-time monitor for C01 (separate file so that Model/FdlOracle.v stays untouched).
+   C01 itself only states LOWER bounds for the idle times (33 bit before an initiated telegram, 11 bit
+   before a reply), so a station may well wait a little longer than 33 bit.  What the other stations
+   rely on is that it does not wait so long that THEIR slot timer expires: the previous token holder
+   would repeat the token into the new holder's first telegram, a GAP poller would go on and the late
+   status reply would collide with its next telegram.  So, over the implementation's transcript:
+   whenever the station is in a state whose next step is gated only by the synchronisation pause -
      PassToken;  ClaimToken outside ScanAwaitResponse;  UseToken;
      ListenToken / ActiveIdle with a status request waiting for its reply
-   - and the bus brings nothing new, then at the first poll later than 33 bit after the last instant at
-   which the station can have seen anything happen (RX growth, tx busy, end of its own transmission,
-   consumption of received data - the same reference instant as the liveness rules of FdlOracle.v) the
-   station must act: transmit, ask an application, or change state.  A station that waits
-   3 * min_tsdr bit instead (seeded bug R4-C01-2) is rejected for every min_tsdr > 11.
+   - and the bus brings nothing new, then by the first poll at or after  reference + Tslot - 11 bit
+   (reference = the last instant at which the station can have seen anything happen: RX growth, tx busy,
+   end of its own transmission, consumption of received data - as for the liveness rules of
+   FdlOracle.v; 11 bit = one character, so that the first byte can still be complete inside the slot)
+   the station must have acted: transmitted, asked an application, or changed state.
+   A pause of 34 instead of 33 bit is accepted; a pause of 3 * min_tsdr bit (seeded bug R4-C01-2) is
+   rejected whenever 3 * min_tsdr > Tslot - 11 bit.
    Input: the events of FdlOracle plus, per event, whether the private state holds a pending status
    request (through the hook fingerprint).  No proofs in this file. *)
 From PB Require Export FdlOracle.
 
-Inductive prule : Set := P01_sync_pause_exceeded.
-Definition prule_prop (r : prule) : pid := match r with P01_sync_pause_exceeded => PC01 end.
+Inductive prule : Set := P01_reaction_after_slot_time.
+Definition prule_prop (r : prule) : pid := match r with P01_reaction_after_slot_time => PC01 end.
 
 Record pmon : Set := mkPmon {
   q_view : view; q_pending : bool;   (* view / pending status request after the previous event *)
@@ -52,8 +55,11 @@ Definition pmon_poll (p : params) (q : pmon) (s : pstep) (pending_post : bool) :
                match s_tx s with Some _ => true | None => false end ||
                match s_calls s with [] => false | _ => true end ||
                negb (Bool.eqb (v_gap_due pre) (v_gap_due post)) in   (* post-claim scan of an empty GAP ends: a step without transmission *)
-  let over := match q_ref q with Some r => r + p_bits_to_time p prop_sync_bits <? now | None => false end in
-  let errs := if gated && quiet && over && negb acted then [P01_sync_pause_exceeded] else [] in
+  let over := match q_ref q with
+              | Some r => r + slot_time p - p_bits_to_time p prop_bits_per_byte <=? now
+              | None => false
+              end in
+  let errs := if gated && quiet && over && negb acted then [P01_reaction_after_slot_time] else [] in
   let happened := grew || s_busy s || consumed || spur_now in
   let ref1 := if happened then Some (zmax_opt (q_ref q) now)
               else match q_ref q with Some r => Some r | None => Some now end in
